@@ -71,6 +71,8 @@ NATIVE_UNITS = {
                          "test": "verif_native_hash_token_known", "role": "known", "finding": "hash-token-not-delimited"},
     "sign_dot_known": {"file": "src/parser/lexer.rs", "source": "lexer_tokens.rs", "modpath": "parser::lexer",
                        "test": "verif_native_sign_dot_known", "role": "known", "finding": "sign-dot-identifier-rejected"},
+    "reader_witness": {"file": "src/interpreter/interpreter.rs", "source": "reader_data.rs", "modpath": "interpreter::interpreter",
+                       "test": "verif_native_reader_witness", "role": "witness", "for_fns": []},
     "complete_witness": {"file": "src/repl.rs", "source": "repl_complete.rs", "modpath": "repl",
                          "test": "verif_native_complete_witness", "role": "witness",
                          "for_fns": ["check_bracket_closed", "witness_caller"]},
@@ -131,7 +133,7 @@ PROPS = {
                         "derive(Hash, Eq) make LibraryName a lawful HashSet key (vstd obeys_key_model)"],
     },
     "C06": {
-        "verus": ["lexer_tok"], "kani": [], "native": ["lexer_token_witness", "hash_token_known", "sign_dot_known"],
+        "verus": ["lexer_tok"], "kani": [], "native": ["lexer_token_witness", "hash_token_known", "sign_dot_known", "reader_witness"],
         "level": "proof",
         "explanation": "The lexer half of the reader: every scanner function of Lexer is proved, for texts of any length, against a "
                        "relation between the text at the start of a token, the token produced and the text left over. Whitespace and "
